@@ -1,6 +1,6 @@
 """C06 — cross-bus mutual exclusion of event processing."""
 from .. import scenlib as S
-from ._common import flat, mk, t_tree
+from ._common import flat, matrix_jobs, mk, t_tree
 
 META = dict(
     explanation='Two buses each with slow handlers, roots dispatched to different buses at symbolic instants; a bus first used from '
@@ -29,4 +29,5 @@ def jobs(tier):
             mk('C06', 'fw/chain3', S.forward_chain(3, topo='chain', second_event=True), max_paths=6000),
             mk('C06', 'drain/BA', S.drain(('B', 'A')), max_paths=6000),
         ]
+    out += matrix_jobs('C06', 'm1', tier)
     return flat(out)
